@@ -157,6 +157,21 @@ func binPath(id string) string {
 
 func build(p *propInfo) ([]byte, error) {
 	args := []string{"test", "-c", "-tags", "verif", "-o", binPath(p.ID)}
+	// development aid (sensitivity tests): VERIF_REPO points the build at a
+	// scratch copy of the repository instead of /repo, through an alternative
+	// go.mod, so that neither /repo nor go.mod is touched
+	if alt := os.Getenv("VERIF_REPO"); alt != "" {
+		mod, err := os.ReadFile(filepath.Join(verifDir, "go.mod"))
+		if err != nil {
+			return nil, err
+		}
+		os.MkdirAll(filepath.Join(verifDir, ".work"), 0o755)
+		altmod := filepath.Join(verifDir, ".work", "alt.mod")
+		os.WriteFile(altmod, bytes.ReplaceAll(mod, []byte("=> /repo"), []byte("=> "+alt)), 0o644)
+		sum, _ := os.ReadFile(filepath.Join(verifDir, "go.sum"))
+		os.WriteFile(filepath.Join(verifDir, ".work", "alt.sum"), sum, 0o644)
+		args = append(args, "-modfile="+altmod)
+	}
 	if p.Race {
 		args = append(args, "-race")
 	}
@@ -483,6 +498,10 @@ func runShard(p *propInfo, tier string, seed int64, shard int, work string, time
 		"VERIF_FINDINGS="+filepath.Join(verifDir, "known_findings.json"),
 		"VERIF_REPLAY="+replay,
 	)
+	if p.Race {
+		racelog := filepath.Join(work, fmt.Sprintf("race-shard-%d", shard))
+		env = append(env, "GORACE=halt_on_error=0 log_path="+racelog, "VERIF_RACELOG="+racelog)
+	}
 	cmd.Env = env
 	var buf bytes.Buffer
 	cmd.Stdout = &buf
